@@ -2,6 +2,8 @@ import HpxVerif.Model.Topo
 import HpxVerif.Lemmas.TopoGen
 import HpxVerif.Gen.Consts
 
+set_option autoImplicit false   -- an unknown identifier in a statement is an error, never a new variable
+
 /-!
 # C14 — internal / external edges of a cell are exactly its deeper-depth border rings
 
